@@ -3,7 +3,7 @@
    Only property theorems live here; each is closed by `exact` and followed by Print Assumptions. *)
 From RichModel Require Import Prelude Cells Segments SpecCells Frames SpecFrames.
 From RichGen Require Import FrameBoxes.
-From RichProofs Require Import CellsP SegmentsP SegmentsP2 FramesP FramesP2 FramesP3.
+From RichProofs Require Import CellsP SegmentsP SegmentsP2 FramesP FramesP2 FramesP3 FramesP4 FramesP5 FramesP6.
 
 (* (1) Padding: all lines `width` cells (= W when expanding); t blank rows, the child's own lines
    (rendered alone at the inner width) unchanged and in order between exactly l and r spaces, b rows.
@@ -27,7 +27,7 @@ Proof. vm_compute. reflexivity. Qed.
 (* (2) Panel (every box incl. safe_box / legacy_windows / ascii_only substitution, title, title_align,
    expand, width): every line child_width + 2 cells; top row, the child's own lines unchanged and in
    order between the two border characters, bottom row.  Stated for padding (0,0,0,0); with padding
-   the child is first wrapped in a Padding (C08_padding_rect) -- see C08_panel_padded_partial below. *)
+   the child is first wrapped in a Padding (C08_padding_rect) -- see C08_panel_padded_rect below. *)
 Theorem C08_panel_rect : forall c o W cW,
   p_pad o = (0, 0, 0, 0) ->
   let cwid := panel_child_width c o W in
@@ -45,19 +45,38 @@ Theorem C08_panel_expand_width : forall c o W,
 Proof. exact panel_expand_width. Qed.
 Print Assumptions C08_panel_expand_width.
 
-(* FULL STATEMENT NOT PROVED (padded panels): for p_pad o = (t, r, b, l) <> 0 the rows are
-     border . l spaces . child line . spaces . r spaces . border
-   and there are 1 + t rows above and 1 + b rows below.  What is proved: Panel hands the Padding
-   child_width cells (panel_inner), and Padding is an exact rectangle of that width (C08_padding_rect
-   with expand = true); what is missing is the lemma that Console.render_lines re-splits the Padding's
-   newline-terminated stream into the same lines (split_lines (stream_of ls) = ls for newline-free ls).
-   The composed statement is checked on the implementation for every generated case (spec.frame_ok). *)
-Theorem C08_panel_padded_partial : forall c t r b l W, 0 <= l -> 0 <= r -> l + r <= W ->
-  frame_ok_b (Some W) (Z.to_nat t) (Z.to_nat b) (spaces l) (spaces r) None None
-             (map flat (render_lines c (W - l - r) (Some None) false))
-             (map flat (padding_lines c t r b l None true W)) = true.
-Proof. intros c t r b l W Hl Hr HW. exact (padding_rect c t r b l None true W Hl Hr HW). Qed.
-Print Assumptions C08_panel_padded_partial.
+(* (2b) Padded panels (the default padding (0,1) included).  Panel wraps the child in a Padding and
+   renders that through Console.render_lines; the re-split of the Padding's newline-terminated stream
+   returns exactly its lines (split_lines_stream), so: every line child_width + 2 cells; top border and
+   t padding rows; the child's own lines (rendered alone at child_width - l - r, overlaid with the
+   panel's style) unchanged and in order between  border . l spaces  and  r spaces . border;
+   b padding rows and the bottom border.  Structural minimum: child_width >= max 1 (l + r). *)
+Theorem C08_panel_padded_rect : forall c o W cW t r b l,
+  p_pad o = (t, r, b, l) -> ((t =? 0) && (r =? 0) && (b =? 0) && (l =? 0) = false) ->
+  let cwid := panel_child_width c o W in
+  1 <= cwid -> 0 <= l -> 0 <= r -> l + r <= cwid ->
+  (p_title o <> [] -> 2 <= cwid /\ cwid - 2 <= cW) ->
+  let box := box_substitute (p_box o) (p_legacy o) (p_safe o) (p_ascii o) in
+  frame_ok_b (Some (cwid + 2)) (1 + Z.to_nat t) (Z.to_nat b + 1)
+             (box_char box 3 0 :: spaces l) (spaces r ++ [box_char box 3 3]) None None
+             (map (fun cl => flat (apply_style (p_style o) cl)) (render_lines c (cwid - l - r) (Some None) false))
+             (map flat (panel_lines false c o W cW)) = true.
+Proof. exact panel_padded_rect. Qed.
+Print Assumptions C08_panel_padded_rect.
+
+Example C08_panel_padded_nonvacuous :
+  map (fun l => map fst (flat l))
+      (panel_lines false (mkChild (fun _ => (2, 2)) (fun _ => [mkSeg (lit "hi") None false; mkSeg [NL] None false]))
+                   (mkPanel BOX_ROUNDED_INDEX true false false [] 1 true None (0, 1, 0, 1) None None) 8 8)
+  = [[9581; 9472; 9472; 9472; 9472; 9472; 9472; 9582]; [9474; 32; 104; 105; 32; 32; 32; 9474];
+     [9584; 9472; 9472; 9472; 9472; 9472; 9472; 9583]].
+Proof. vm_compute. reflexivity. Qed.
+
+(* the round trip used above: Console.render_lines / Segment.split_lines give back the lines of a
+   newline-terminated stream whose segments contain no newline *)
+Theorem C08_split_lines_stream : forall s ls, Forall (Forall nlfree) ls -> split_lines (stream_s s ls) = ls.
+Proof. exact split_lines_stream. Qed.
+Print Assumptions C08_split_lines_stream.
 
 (* rich 9.10.0 as found (title rendered through Text.wrap): a title with zero-width characters loses its
    padding space and the top row is one cell short; the repaired code is rectangular on the same input *)
@@ -151,18 +170,22 @@ Example C08_bars_nonvacuous :
   /\ pbar_text 3 1 None false 0 false false false 6 = [9473; 9473].
 Proof. vm_compute. repeat split. Qed.
 
-(* (7) Columns.
-   FULL STATEMENT NOT PROVED:  forall n cc, 0 <= n -> 1 <= cc -> grid_ok n cc cf rtl = true
-   (every item exactly once, row-first / column-first / right-to-left order, blanks only after the last
-   item; i.e. the column-first fill is a bijection onto the cells (r, c) with r * cc + c < n).
-   Proved: the statement for every n <= 48 and cc <= 50 (a finite sweep, which is a proof of the bounded
-   statement), and, unbounded, that the column-first fill never fails and numbers its n positions
-   0 .. n-1 in order (C08_column_first_total).  Missing: the induction over columns that turns the
-   position list into the row-major grid for arbitrary n. *)
-Theorem C08_columns_each_once_partial : forall n cc cf rtl, 0 <= n <= 48 -> 1 <= cc <= 50 ->
-  grid_ok n cc cf rtl = true.
-Proof. exact columns_each_once_bounded. Qed.
-Print Assumptions C08_columns_each_once_partial.
+(* (7) Columns: for EVERY item count n >= 0 and EVERY column count cc >= 1, each of the four fill orders
+   (row-first, column-first, each with right_to_left) puts every item exactly once into the grid, in the
+   documented order (reading along rows / down columns gives 0 .. n-1; right_to_left mirrors each row),
+   every row has cc cells and blanks occur only after the last item.  For column-first this is the
+   index arithmetic of the imperative fill as coded (column c holds n/cc + [c < n mod cc] items, cell
+   (r, c) = sum of the previous column lengths + r), proved through Euclidean division. *)
+Theorem C08_columns_each_once : forall n cc cf rtl, 0 <= n -> 1 <= cc -> grid_ok n cc cf rtl = true.
+Proof. exact columns_each_once. Qed.
+Print Assumptions C08_columns_each_once.
+
+(* ... for the grid Columns.__rich_console__ actually builds (width loop / explicit width, equal, padding) *)
+Theorem C08_columns_grid_once : forall ws cwidth pl pr equal cf rtl W cc g,
+  ws <> [] -> columns_grid_fixed ws cwidth pl pr equal cf rtl W = Ok (cc, g) -> 1 <= cc ->
+  columns_once_b cf rtl (length ws) cc g = true.
+Proof. exact columns_grid_once. Qed.
+Print Assumptions C08_columns_grid_once.
 
 Theorem C08_column_first_total : forall k idx row col lens acc,
   Forall (fun x => 1 <= x) lens -> Z.of_nat k <= sumZ lens ->
@@ -176,20 +199,27 @@ Example C08_columns_nonvacuous :
   /\ grid_of 7 3 false true = Some [[2; 1; 0]; [5; 4; 3]; [-1; -1; 6]].
 Proof. vm_compute. split; reflexivity. Qed.
 
-(* (8) Tree.
-   FULL STATEMENT NOT PROVED:  forall t W, tree_render ascii legacy t W = Ok ls /\
-                               tree_dfs_b (tree_preorder W 0 t) ls = true
-   (depth-first order over the explicit stack, for every shape and every `expanded` flag).
-   Proved, unbounded: every guide segment is exactly 4 cells for every guide style / ascii / legacy
-   (guide_text_4), and the block a node contributes is its label lines, unchanged and in order, each
-   behind exactly 4 * depth cells (C08_tree_prefix).  The depth-first order itself is replayed inside
-   Coq on a concrete tree (tree_dfs_demo) and checked on the implementation for every generated tree
-   (spec.tree_dfs); missing is the stack invariant relating the iterator stack to the preorder. *)
-Theorem C08_tree_prefix_partial : forall ascii legacy (prefix_rev : list guide) last (lab : list str),
+(* (8) Tree: for EVERY tree shape, every `expanded` flag, every guide style, ascii / legacy or not, and
+   every width, the explicit-stack loop of Tree.__rich_console__ terminates within the supplied fuel and
+   emits the nodes in depth-first pre-order (children of collapsed nodes skipped), every label line
+   unchanged behind a guide prefix of exactly 4 * depth cells. *)
+Theorem C08_tree_dfs_prefix : forall ascii legacy t W,
+  exists ls, tree_render ascii legacy t W = Ok ls /\ tree_dfs_b (tree_preorder W 0 t) ls = true.
+Proof. exact tree_dfs_prefix. Qed.
+Print Assumptions C08_tree_dfs_prefix.
+
+Example C08_tree_nonvacuous :
+  match tree_render false false demo_tree 20 with
+  | Ok ls => (length ls =? 6)%nat
+  | _ => false
+  end = true.
+Proof. vm_compute. reflexivity. Qed.
+
+Theorem C08_tree_prefix : forall ascii legacy (prefix_rev : list guide) last (lab : list str),
   Forall guide_ok prefix_rev ->
   all2 (tree_line_b (zlen prefix_rev)) lab (node_lines ascii legacy prefix_rev last lab) = true.
 Proof. exact node_block_ok. Qed.
-Print Assumptions C08_tree_prefix_partial.
+Print Assumptions C08_tree_prefix.
 
 Theorem C08_guide_four_cells : forall ascii legacy g, guide_ok g -> cell_len (guide_text ascii legacy g) = 4.
 Proof. exact guide_text_4. Qed.
